@@ -3435,3 +3435,61 @@ def r20_10(ctx):
                     "octets 11..13: fe80::ff:fe00:XXXX, which the compressor sends in the 16-bit form, comes out as fe80::XXXX", body=b, bb=s_)
         else:
             ctx.ok(('resolve', '16-bit iid', s_), sample=dict(writes='bytes[14..]', with_filler='bytes[11..13] = ff fe'))
+
+
+@rule('R09.12', ['C09'], floor=2, clause='a raw socket is handed the header and the payload of one and the same packet: where the IP representation given to raw_socket_filter is the parsed header as it arrived, the payload given with it is that packet\'s whole payload (not the rest behind an extension header that the ingress path has already consumed)')
+def r09_12(ctx):
+    F = ctx.F
+    n = 0
+    for k, b in sorted(F.bodies.items()):
+        if '::test' in k:
+            continue
+        for x in b.calls():
+            if not (b.callee_name(x[1]) or '').endswith('::raw_socket_filter'):
+                continue
+            n += 1
+            at = len(b.blocks[x[0]]['s'])
+            rp = strip(simplify(F.origin.operand(b, x[2][2], x[0], at)))
+            pl = strip(simplify(F.origin.operand(b, x[2][3], x[0], at)))
+            modified = bool(_nodes(rp, lambda n_: n_[0] == 'opaque' or n_[0] == 'phi'))
+            short = k.rsplit('::', 1)[-1]
+
+            def whole(a):
+                a = strip(a)
+                while a[0] in ('ref', 'deref') or (a[0] == 'proj' and all(e[0] in ('*', 'sub') or e == ('*',) for e in a[2])):
+                    a = strip(a[1])
+                return a[0] == 'call' and re.search(r"Packet::<&'a T>::payload$", a[1]) is not None and strip(a[2][0])[0] in ('arg', 'ref', 'field')
+            bad = [a for a in alts(pl) if not whole(a)]
+            if bad and not modified:
+                ctx.bad(f"{short}|raw-socket-payload-of-another-layer", f"{short} hands raw sockets the IP header as it arrived together with `{show(bad[0])[:70]}`: header (next header, payload length) and "
+                        "payload no longer belong together - the datagram delivered to the raw socket is truncated / not the one that arrived", body=b, bb=x[0])
+            else:
+                ctx.ok((short, 'raw socket payload'), sample=dict(fn=short, header='as parsed' if not modified else 'adjusted to the reassembled datagram', payload=show(pl)[:60]))
+    ctx.need(n >= 2, "raw_socket_filter call sites")
+
+
+@rule('R13.15', ['C13', 'C19'], floor=1, clause='the DNS socket never leaves a pending query behind that is due but was not acted on: inside dispatch every way past a pending query without transmitting either fails the query (set_state) or found its retransmission instant still in the future - otherwise poll_at keeps answering a past instant while polls transmit nothing')
+def r13_15(ctx):
+    from ..loops import loops
+    F = ctx.F
+    b = ctx.method('socket::dns::Socket', 'dispatch')
+    ls = loops(b)
+    ctx.need(ls, "the query loop of dns dispatch")
+    h, nodes, srcs = max(ls, key=lambda x: len(x[1]))
+    pend = [(bi, tb, lab) for (bi, tb, lab) in guard_edges(F, b, lambda f: f[0] == 'is' and f[2] == 'Pending' and f[3] == 'socket::dns::State') if bi in nodes]
+    ctx.need(pend, "the Pending arm of the query loop")
+    setst = {x[0] for x in b.calls() if (b.callee_name(x[1]) or '').endswith('::set_state')}
+    emits = {x[0] for x in b.calls() if isinstance(x[1], dict) and (x[1].get('fn') or '').endswith('FnOnce::call_once')}
+    ctx.need(setst and emits, "set_state / emit calls in dns dispatch")
+    waiting = set(guard_edges(F, b, lambda f: f[0] == 'rel' and f[1] == 'Gt' and any(l.endswith('.retransmit_at') for l in leafs(f[2])) and any(l.endswith('::now') for l in leafs(f[3]) if l.startswith('C:'))))
+    ctx.need(waiting, "`retransmit_at > now` test in dns dispatch")
+    worst = None
+    for (bi, tb, lab) in pend:
+        seen = b.reachable(start=tb, cut_edges=waiting, cut_blocks=setst | emits)
+        if h in seen:
+            worst = (bi, b.path_to(seen, h))
+    if worst:
+        ctx.bad("dns::dispatch|due-query-skipped", "dns dispatch can go on to the next query past a pending one that is due (its retransmission instant is not in the future) without transmitting "
+                "and without failing it: poll_at keeps answering that past instant and an event loop spins until the per-server time-outs have run out", body=b, bb=worst[0], path=worst[1])
+    else:
+        ctx.ok(('dns::dispatch', 'no due query skipped'), sample=dict(fn='dns::Socket::dispatch', skips='only waiting (retransmit_at > now) or failed (set_state) queries'))
